@@ -31,8 +31,14 @@ pub fn build_case(t: &mut Tape) -> Case {
     let gen_entry;
     let e = if generated {
         // a generated program (size-static or cascading, with banks and faults) as the seed text
-        let prog = if t.flip() { crate::props::c01::gen_case(t, 18, true, true).0 } else { crate::props::c02::gen_cascade(t, 18).0 };
-        let (src, _) = crate::model::program::render(&prog);
+        let feature_mix = crate::engine::gen_version() >= 2 && t.chance(1, 4);
+        let src = if feature_mix {
+            feature_mix_program(t)
+        } else {
+            let prog = if t.flip() { crate::props::c01::gen_case(t, 18, true, true).0 } else { crate::props::c02::gen_cascade(t, 18).0 };
+            crate::model::program::render(&prog).0
+        };
+        let (src, _) = (src, ());
         gen_entry = corpus::CorpusEntry { name: "generated".into(), root: "main.asm".into(), files: vec![("main.asm".into(), src.into_bytes())], command: None };
         &gen_entry
     } else {
@@ -399,6 +405,78 @@ pub fn real_binary_predicate(files: &[(String, Vec<u8>)], args: &[String]) -> Op
         }
         None => None,
     }
+}
+
+/// v2: small programs that MIX language features the other generators keep apart: user functions, conditional
+/// arms that declare symbols, constants and data calling functions, asm blocks, nested labels, banks.
+/// No model: the oracle of C03 is the outcome predicate.
+pub fn feature_mix_program(t: &mut Tape) -> String {
+    let mut s = String::new();
+    let nfn = t.urange(0, 2);
+    for k in 0..nfn {
+        match t.draw(4) {
+            0 => s.push_str(&format!("#fn f{}(x) => x + 1\n", k)),
+            1 => s.push_str(&format!("#fn f{}(x, y) => x * 2 + y\n", k)),
+            2 => s.push_str(&format!("#fn f{}(x) => $ + x\n", k)),
+            _ => s.push_str(&format!("#fn f{}() => 7\n", k)),
+        }
+    }
+    if t.chance(2, 3) {
+        s.push_str("#ruledef\n{\n    ld {x: u8} => 0x10 @ x\n    jmp {a} => 0x20 @ a`8\n    two {a} => asm { ld {a}\n ld {a} + 1 }\n    halt => 0xff\n}\n");
+    }
+    let call = |t: &mut Tape, nfn: usize| -> String {
+        if nfn == 0 {
+            return format!("{}", t.draw(9));
+        }
+        let k = t.below(nfn);
+        match t.draw(3) {
+            0 => format!("f{}({})", k, t.draw(5)),
+            1 => format!("f{}({}, {})", k, t.draw(5), t.draw(5)),
+            _ => format!("f{}()", k),
+        }
+    };
+    let n = t.urange(2, 9);
+    let mut sym = 0;
+    for _ in 0..n {
+        match t.draw(10) {
+            0 => {
+                let cond = *t.pick(&["true", "false", "1 == 1", "cfgz", "cfgz == 2", "!true"]);
+                s.push_str(&format!("#if {}\n{{\n", cond));
+                for _ in 0..t.urange(0, 2) {
+                    sym += 1;
+                    match t.draw(4) {
+                        0 => s.push_str(&format!("    y{} = {}\n", sym, t.draw(9))),
+                        1 => s.push_str(&format!("    lb{}:\n", sym)),
+                        2 => s.push_str(&format!("    y{} = {}\n", sym, call(t, nfn))),
+                        _ => s.push_str(&format!("    #d8 {}\n", t.draw(200))),
+                    }
+                }
+                s.push_str("}\n");
+                if t.chance(1, 3) {
+                    s.push_str("#else\n{\n    #d8 0xee\n}\n");
+                }
+            }
+            1 => {
+                sym += 1;
+                s.push_str(&format!("z{} = {}\n", sym, call(t, nfn)));
+            }
+            2 => s.push_str(&format!("#d8 {}\n", call(t, nfn))),
+            3 => {
+                sym += 1;
+                s.push_str(&format!("g{}:\n", sym));
+            }
+            4 => {
+                sym += 1;
+                s.push_str(&format!(".l{}:\n", sym));
+            }
+            5 => s.push_str(&format!("ld {}\n", call(t, nfn))),
+            6 => s.push_str(&format!("two {}\n", t.draw(9))),
+            7 => s.push_str("cfgz = 2\n"),
+            8 => s.push_str(&format!("#d8 z{}\n", t.urange(1, 4))),
+            _ => s.push_str(&format!("jmp g{}\n", t.urange(1, 4))),
+        }
+    }
+    s
 }
 
 impl Property for C03 {
